@@ -661,4 +661,58 @@ def appDropMux (e : EP) : EP × Res :=
   let e := e.bindq.foldl (fun e b => e.enqFrame (.reset b.fid)) e
   ({ e with acceptq := [], dgramq := [], bindq := [] }, .unit)
 
+/-! ### One stimulus = one operation followed by the task's run to quiescence -/
+
+/-- The stimuli of the correspondence harness (harness/src/muxsim.rs `Sim::apply`). -/
+inductive Op where
+  | open (req : Nat) (host : Bytes) (port : Nat)
+  | accept
+  | write (h : Nat) (d : Bytes)            -- also vectored writes: `d` is the concatenation
+  | read (h n : Nat)
+  | shutdown (h : Nat)
+  | dropStream (h : Nat)
+  | sendDgram (d : Dgram)
+  | recvDgram
+  | bindReq (req : Nat) (bt : BindType) (host : Bytes) (port : Nat)
+  | bindNext
+  | bindReply (k : Nat) (accept : Bool)
+  | bindDrop (k : Nat)
+  | dropMux
+  | deliver (w : WsIn)                      -- the transport hands one item to the task
+deriving Repr
+
+/-- The application call (or delivery) itself, before the task runs. -/
+def opStep (e : EP) : Op → EP × Res × List Ev
+  | .open req host port =>
+    if e.opens.any (·.req == req) then (e, .badHandle, [])     -- request numbers are unique
+    else let (e, evs) := appOpen e req host port; (e, .started, evs)
+  | .accept => let (e, r) := appAccept e; (e, r, [])
+  | .write h d => let (e, r) := appWrite e h d; (e, r, [])
+  | .read h n => let (e, r) := appRead e h n; (e, r, [])
+  | .shutdown h => let (e, r) := appShutdown e h; (e, r, [])
+  | .dropStream h => let (e, r) := appDropStream e h; (e, r, [])
+  | .sendDgram d => let (e, r) := appSendDgram e d; (e, r, [])
+  | .recvDgram => let (e, r) := appRecvDgram e; (e, r, [])
+  | .bindReq req bt host port => let (e, evs) := appBindReq e req bt host port; (e, .started, evs)
+  | .bindNext => let (e, r) := appBindNext e; (e, r, [])
+  | .bindReply k a => let (e, r) := appBindReply e k a; (e, r, [])
+  | .bindDrop k => let (e, r) := appBindDrop e k; (e, r, [])
+  | .dropMux => let (e, r) := appDropMux e; (e, r, [])
+  | .deliver w =>
+    -- nothing arrives any more once the source has ended or failed
+    if e.srcEnded || e.inbox.any (fun x => x == .eof || x == .err) then (e, .unit, [])
+    else match w with
+      -- a peer that sends Close then closes the connection: the source ends after the Close
+      | .msg .close => ({ e with inbox := e.inbox ++ [.msg .close, .eof] }, .unit, [])
+      | w => ({ e with inbox := e.inbox ++ [w] }, .unit, [])
+
+/-- One stimulus: the operation, then the task (and the open futures) run to quiescence. -/
+def applyOp (e : EP) (op : Op) : EP × Res × List Ev :=
+  let (e, r, evs) := opStep e op
+  let (e, evs') := settle e
+  (e, r, evs ++ evs')
+
+/-- The endpoint after a sequence of stimuli. -/
+def runOps (e : EP) (ops : List Op) : EP := ops.foldl (fun e op => (applyOp e op).1) e
+
 end Penguin.Mux
